@@ -1710,6 +1710,8 @@ def _compare_date_tuple(a: DateTuple, b: DateTuple) -> int:
     if a.M > b.M: return 1  # noqa: #701
     if a.d < b.d: return -1  # noqa: #701
     if a.d > b.d: return 1  # noqa: #701
+    if a.ss < b.ss: return -1  # noqa: #701
+    if a.ss > b.ss: return 1  # noqa: #701
     return 0
 
 
